@@ -393,6 +393,7 @@ def finish(mod, tier, seed, results, twin_res, not_reached, t0):
         obligations=obligations,
         discharged=discharged,
         inconclusive=len(inconcl),
+        inconclusive_cases=[dict(case=repr(r['key'])[:160], why=str(r.get('why', ''))[:200]) for r in inconcl[:25]],
         harness_errors=len(errors),
         skipped=len([r for r in results if r['status'] == 'skipped']),
         not_reached_within_budget=not_reached,
@@ -433,6 +434,8 @@ def finish(mod, tier, seed, results, twin_res, not_reached, t0):
         pass
     for l in lines:
         print(l)
+    for r in inconcl[:5]:
+        print(f'# INCONCLUSIVE property={prop} case={repr(r["key"])[:120]} why={str(r.get("why", ""))[:160]}')
     print(f'{prop} [{tier}] cases={evaluations} ok={len([r for r in results if r["status"] == "ok"])} '
           f'violations={n_viol_new} known={len(known_hit)} inconclusive={len(inconcl)} errors={len(errors)} '
           f'not_reached={not_reached} obligations={obligations} solver={solver_s:.1f}s wall={wall:.1f}s')
